@@ -307,6 +307,41 @@ def _known_marked_section(o):
     return o.get("exc") == "AssertionError" and "<![" in o["text"] and "parse_marked_section" in o.get("frames", [])
 
 
+# well-formed documents whose VALUES go beyond the model's alphabet: RoundTrip (S) says str(tokenize_html(t)) == t.
+# The model abstracts attribute values and text to tokens it renders back unchanged; these documents bind that abstraction.
+WELLFORMED = [
+    '<button onclick="show(\'help\')" title="what\'s this">?</button>', '<p data-rule="a > b">x</p>', '<p data-rule="a < b">x</p>',
+    '<img src="plot.png?w=100& h=50" alt="plot">', '<a href="?a=1&b=2">x</a>', '<a title="x=y; z: {w}">x</a>', '<a title="">x</a>',
+    '<a title=" lead trail ">x</a>', '<a title="tab\there">x</a>', '<a title="nl\nhere">x</a>',
+    # line ends are content: CR and CRLF stay as written (in text, comments, attribute values)
+    '<!DOCTYPE html>\r\n<div>\r\n<p>a</p>\r\n</div>\r\n', '<!-- a\rb --><img src="a.png" alt="two\rlines">', '<p>a\rb</p>', '<p>x\r</p>',
+    'text\r\n<br>\r\nmore', '<ul>\n  <li>a</li>\n\t<li>b</li>\n</ul>\n',
+]
+# open finding C16-attr-charref: a character / entity reference inside an attribute value is decoded by the stdlib parser
+# and written back decoded
+WELLFORMED_CHARREF = ['<a title="a &amp; b">x</a>', '<a title="q&quot;q">x</a>', '<a href="?a=1&amp;b=2">x</a>', '<i title="&#169; 2020">c</i>']
+
+
+def wellformed_leg(ctx):
+    from myst_parser.parsers import parse_html as H
+    for text, fid in [(t, None) for t in WELLFORMED] + [(t, "C16-attr-charref") for t in WELLFORMED_CHARREF]:
+        ctx.count(("wf", text))
+        ctx.traces_validated += 1
+        case = {"leg": "R-wellformed", "html": text}
+        try:
+            root = H.tokenize_html(text)
+            got = str(root)
+            cp = str(root.deepcopy())
+        except Exception as e:  # noqa: BLE001
+            ctx.violation(f"tokenize_html({text!r}) raised {type(e).__name__}: {e}", case)
+            continue
+        if got != text:
+            ctx.violation(f"rendering the tree of well-formed HTML does not reproduce the input: {text!r} -> {got!r}", {**case, "rendered": got}, finding=fid)
+        elif cp != text:
+            ctx.violation(f"a copy of the tree renders differently: {cp!r}", case)
+    ctx.leg("R-wellformed", documents=len(WELLFORMED) + len(WELLFORMED_CHARREF))
+
+
 def run(ctx):
     quick = ctx.tier == "quick"
     rnd = random.Random(ctx.seed + 16)
@@ -409,6 +444,7 @@ def run(ctx):
         if not ok:
             ctx.violation(f"tokenize_html({text!r}): a void element must not enclose what follows it and must round-trip: {msg}", {"leg": "R-void", "text": text})
     ctx.leg("R", behaviours=len(uniq), not_concretisable=miss, named_root=nn, void_names=len(void))
+    wellformed_leg(ctx)
 
     # ---- V ----------------------------------------------------------------------------------
     n = 3000 if quick else 60000
